@@ -437,8 +437,9 @@ func (x *Exec) tryInv(env *SpecEnv, inv *SpecExpr) (term string, ok bool) {
 			return t2, true
 		}
 	}
-	x.eng.note("loop invariant dropped, it does not fit the current code: unknown identifier " + unknown)
-	return "", false
+	// no reading of the name is available: the function is UNDECIDED (never "proved", never an alarm by
+	// itself); the witness search then runs its executable contract on the real code
+	panic(unsupported{"loop invariant `" + inv.Src + "`: unknown identifier " + unknown})
 }
 
 func (x *Exec) tryInv1(env *SpecEnv, inv *SpecExpr) (term string, ok bool, unknown string) {
